@@ -42,6 +42,7 @@ class Ctx:
         self.violations = []
         self.counters = {}
         self.current_pos = None
+        self.proj_log = []  # (prev_pos, returned pos, time_step) of every projection solve that returned
 
     def count(self, k, n=1):
         self.counters[k] = self.counters.get(k, 0) + n
@@ -247,6 +248,8 @@ class MonitoredProjectionSolver:
         finally:
             ctx.in_solve -= 1
         ctx.count("proj_returns")
+        # log of converged projection solves (for the in-step reversibility audit of the monitored integrator)
+        ctx.proj_log.append((prev_pos, np.array(state.pos, copy=True), float(time_step)))
         tol = kwargs.get("constraint_tol", 1e-9)
         with paused(ctx):
             fresh = ChainState(pos=np.array(state.pos, copy=True), mom=np.array(state.mom, copy=True), dir=1)
@@ -364,6 +367,7 @@ class MonitoredIntegrator:
         before = bytes_of(state)
         ctx.in_step += 1
         ctx.count("steps")
+        n_proj0 = len(ctx.proj_log)
         try:
             out = self._real.step(state)
         except mici.errors.IntegratorError as e:
@@ -387,11 +391,33 @@ class MonitoredIntegrator:
             ctx.violations.append(violation("input-modified", "input-returned", "integrator step returned its input object"))
         self.outputs.append(out)
         ctx.count("steps_ok")
+        self._audit_in_step_reversibility(ctx.proj_log[n_proj0:])
+        del ctx.proj_log[:]
         if self.constrained:
             self._check_manifold(out, "step")
         if self.reversal is not None:
             self._check_reversal(state, out)
         return out
+
+    # ---- C12 / C02: a constrained step that returns must have passed every one of its reversibility checks ----
+    def _audit_in_step_reversibility(self, solves):
+        """The constrained integrator follows each forward retraction (time step s, from q_prev to q) by a reverse
+        one (time step -s, from q) and promises NonReversibleStepError when that does not come back to q_prev within
+        reverse_check_tol.  Audited from the solver calls alone: a returned step must not contain a forward/reverse pair
+        that misses by more than the tolerance."""
+        tol = getattr(self._real, "reverse_check_tol", None)
+        norm = getattr(self._real, "reverse_check_norm", None)
+        if tol is None or norm is None or not solves:
+            return
+        for (p0, q0, s0), (p1, q1, s1) in zip(solves[:-1], solves[1:]):
+            if s1 == -s0 and np.array_equal(p1, q0):
+                d = float(norm(q1 - p0))
+                self.ctx.count("in_step_reversal_pairs")
+                if d > tol and np.isfinite(d):
+                    self.ctx.violations.append(violation(
+                        "reversibility-failure-not-raised", f"reversibility-failure-not-raised:{type(self._real).__name__}",
+                        f"{type(self._real).__name__} returned a step although a forward/reverse retraction pair inside it misses its start by {d:.3e} > reverse_check_tol {tol:.1e}"))
+                    return
 
     # ---- C04 invariant ----
     def _check_manifold(self, st, where):
